@@ -602,3 +602,18 @@ def main(ctx):
         "evaluations = executions of the real code; non-trivial = answered "
         "draws (transitions).")
     return rep
+
+
+def mixed_cases(ctx):
+    from ecdsa import curves as cv
+    items = []
+    for names in catalog.same_length_groups():
+        for nm in names:
+            n = int(getattr(cv, nm).order)
+            for kind in ("n-2", "all-00", "ff-then-small", "n-1"):
+                items.append(("adv", dict(n=n, kind=kind)))
+    for n in (19, 251, 257, 65537, 19, 251):
+        for fn in ("randrange_from_seed__trytryagain",
+                   "randrange_from_seed__overshoot_modulo"):
+            items.append(("seed", dict(fn=fn, seed=b"s", order=n)))
+    return [items]
